@@ -18,12 +18,12 @@ import (
 
 func init() {
 	simrt.Register(&simrt.Scenario{
-		Prop: "C15", Name: "noise-conns", Count: tiered(8000, 100000),
+		Prop: "C15", Name: "noise-conns", Count: tiered(8000, 800000),
 		Run: c15Noise, MaxOps: 4 << 20, Horizon: time.Hour,
 		Doc: "NoiseGrpcConn over a ProxyConn stub and NoiseConn over a fragmenting stream; writer and reader are separate tasks; write sizes 0..65535 (gRPC variant) / up to 300 KiB (TCP variant); read-buffer sizes 1 B .. 100 KiB incl. sequences that shrink mid-record and straddle the 32 KiB split",
 	})
 	simrt.Register(&simrt.Scenario{
-		Prop: "C15", Name: "connkit-plain", Count: tiered(400, 30000),
+		Prop: "C15", Name: "connkit-plain", Count: tiered(400, 240000),
 		Run: c15ConnKit, MaxOps: 4 << 20, Horizon: 2 * time.Hour,
 		Doc: "the plain mailbox connections (ClientConn / ServerConn, i.e. connKit over real GBN over the stub relay, no Noise on top): writes of 0..100 kB in both directions incl. empty writes between non-empty ones, read buffers of 1 B .. 100 KiB",
 	})
